@@ -17,6 +17,7 @@ RULE = (
     "3D, affine images; inclined beam members EB/Timoshenko), a positive-definite law, thickness and density (scalar or "
     "per-element field); the assembled K, C, M of Get_K_C_M_F() are analysed by dense eigvalsh. Non-trivial = "
     ">=2 elements sharing >=1 node with a clear spectral gap; distinct = sha1 of the case."
+    ' elastic_rows / thermal_rows: enumerated rows of 2 and 3 elements of every continuum type under an affine map (non-trivial = every case).'
 )
 ASSUMPTIONS = [
     "dense symmetric eigensolver (LAPACK) and analytic rigid-body modes are the oracle",
